@@ -397,7 +397,7 @@ def run_nets(spec, rec, ctx):
         if idx % spec["parts"] != spec["part"]:
             continue
         rec.ev("network_flavour." + bip)
-        for k in range(spec["per_net"]):
+        for k in range(spec["per_net"] * (1 if bip == "bip32" else 6)):     # few networks define bip49/bip84
             secret = rng.choice([1, 2, RB.N - 1, RB.N - 2, 1 << 248, (1 << 128) - 1, rng.randrange(1, RB.N), rng.randrange(1, RB.N)])
             cc = rng.choice([b"\0" * 32, b"\xff" * 32, b"\0" * 31 + b"\1", bytes(rng.randrange(256) for _ in range(32)),
                              bytes(rng.randrange(256) for _ in range(32))])
